@@ -53,6 +53,24 @@ read then (`earlier-output-altered`,
 statement does not forbid it): only objects whose content CHANGES through later use of the model are reported.
 The PDE models come with grids unspecified and (`*_grid` kinds) with explicit, equal solution/observation grids, crossed
 with the identity-like range geometries - the configuration in which the library passes the PDE solver's own array through.
+
+Hidden constructor options (checks/_c12_models.py): every geometry kind whose constructor takes options that neither the
+parameter nor the function shape shows appears with several option values on the SAME coarse shape (same role, grid, number
+of modes / steps): KLExpansion decay_rate / normalizer, KLExpansion_Full std / cor_len / nu, CustomKL mean / kernel /
+amplitude / trunc_term, StepExpansion fun2par_projection mean / max / min and n_steps, MappedGeometry maps over one base,
+Image2D order.  One option differs per variant; the dense reference of every variant is written from ITS OWN option values
+(documented sine series, Nystrom eigenpairs of the kernel up to the sign gauge, interval max / min by loops).
+KLExpansion_Full and CustomKL have no fun2par: domain only, the adjoint into them is not formed.
+
+Process-history facet: a cell may carry a DECOY - a second model of the same model kind whose geometry (of the named role)
+is of the same kind, role and size but has OTHER option values.  The four events D (decoy built), d (decoy evaluated in
+every representation: vector, function values, CUQIarray par/fun, 2-column Samples, adjoint, gradient), M (model under
+test built), m (model under test evaluated the same way for the first time) happen in the order named by the cell, then
+the model under test runs through all batteries against the reference of its own options.  All 6 orders with D<d and M<m
+(quick: decoy completely first `DdMm`, decoy completely after the first use `MmDd`) x both directions of every pair
+(base, variant) x both roles: whatever module-level state earlier cells left in a worker process, the two kinds of a
+pair cannot both agree with it, and in a fresh process (replay) every `DdMm` cell sees the decoy's state first.  The
+facet `history=<order>` stays in a signature only if the failure disappears, in the same process, without the decoy.
 """
 import numpy as np
 from vfw.core import CellResult, close
@@ -76,7 +94,13 @@ RULE = ("cells = model kind (incl. the derived models LinearModel.T / .T.T) x do
         "after the gradients / after get_matrix + forward + gradient + a second get_matrix (objects kept since the previous "
         "audit), and all of them once more at the end of the cell (after model(distribution) and its applications): kept "
         "outputs and the caller's inputs read what they read then; "
-        "PDE models with unspecified and with explicit coinciding solution/observation grids; a cell is non-trivial "
+        "PDE models with unspecified and with explicit coinciding solution/observation grids; hidden constructor options: "
+        "every expansion geometry family appears with several values of each option on one coarse shape (one option differs "
+        "per variant, reference written from the variant's own options), crossed with a covering subset of partners; "
+        "process-history facet: cells with a DECOY model (same model kind, geometry of the same kind / role / size, other "
+        "option values) whose construction (D) and evaluation in every representation (d) are interleaved with the "
+        "construction (M) and first evaluation (m) of the model under test in every order, both directions of every "
+        "(base, variant) pair, both roles, before the model under test runs through all batteries; a cell is non-trivial "
         "when at least one forward value was compared with the composed reference")
 BOUND = {
     "quick": "models {Model+jacobian, Model+gradient, Model, LinearModel matrix/callables/inferred, PDEModel Poisson "
@@ -99,7 +123,16 @@ BOUND = {
              "grid_sol/grid_obs {Poisson, Heat forward Euler, Heat backward Euler with the final time given as time_obs "
              "array} x domain {plain 1-D, Image2D-C, StepExpansion with gradient} x the 7 range kinds with a 1-D function "
              "space (+ equal copy); history facet: all objects of a cell (about 150-250 forward/adjoint outputs, every "
-             "computed gradient, 2 matrices, all inputs) audited twice (after their own battery, at the end of the cell)",
+             "computed gradient, 2 matrices, all inputs) audited twice (after their own battery, at the end of the cell); "
+             "option variants: domain kinds {KLExpansion decay 2.25 (+gradient) / normalizer 0.5, KLExpansion_Full base / std 1.5 "
+             "/ cor_len 0.5 (+gradient) / nu 1.5, CustomKL base / mean 0.5 / kernel length 1 (+gradient) / amplitude 1.5 / other "
+             "trunc_term, StepExpansion max / min / other n_steps} x range {plain 1-D, one option-variant range, equal copy "
+             "(every second kind with a fun2par)}, range kinds {KLExpansion decay / normalizer, StepExpansion max / min / "
+             "other n_steps} x domain {plain 1-D, one option-variant domain}, models {Model+jacobian, Model, LinearModel "
+             "matrix / callables / callables.T, PDEModel Poisson+jacobian}; history facet: 30 ordered domain pairs + 16 "
+             "ordered range pairs (stars around KLExpansion, KLExpansion_Full, CustomKL, StepExpansion, Image2D order, "
+             "MappedGeometry maps over Continuous1D and over Image2D) x orders {DdMm, MmDd} x models {Model+jacobian, "
+             "LinearModel callables}, partner plain 1-D",
     "thorough": "same product with 2 sizes per domain and per range kind (4 combinations), points = basis + origin + "
                 "integer generic + 3 dyadic generic, every Samples variant with 1..3 columns, gradient linearised at "
                 "every point (extra pairs at the last generic point, integer pair at every integer-valued point); MappedGeometry "
@@ -108,7 +141,10 @@ BOUND = {
                 "kind of the other side, an equal copy and one mapped partner (second size for the plain 1-D / Image2D-C / "
                 "mapped partners); derived models additionally (B.T).T (first size variant); explicit-grid PDE models x "
                 "every domain kind x the 7 range kinds with a 1-D function space (second size for the plain 1-D domain); "
-                "history facet as in quick over the larger batteries",
+                "history facet as in quick over the larger batteries; option variants x every model kind, second size for "
+                "the plain 1-D and option-variant partners, equal copy for every kind with a fun2par; process-history facet: "
+                "the same 46 ordered pairs x all 6 orders x models {Model+jacobian, Model, LinearModel matrix / callables / "
+                "callables.T, PDEModel Poisson+jacobian} with the batteries of the quick tier",
 }
 ASSUMPTIONS = [
     "MappedGeometry: the documented composition is the reference (par2fun = map after the wrapped geometry's par2fun, "
@@ -147,6 +183,18 @@ ASSUMPTIONS = [
     "modifying a returned object is not part of the history",
     "PDE grids: unspecified, or explicit and equal (1-D range function spaces); different solution/observation grids "
     "(the library's spline interpolation) are not exercised",
+    "option variants: the documented formulas are the reference (KLExpansion / KLExpansion_Full sine series with the "
+    "documented coefficient laws; CustomKL: Nystrom eigenpairs of the user's kernel with 2*trunc_term Gauss-Legendre nodes "
+    "on a grid starting at 0, kernel amplitude = std^2 so that 'std' is unambiguous, eigenvector signs taken from the "
+    "library (gauge), numpy's leggauss / eigh trusted; StepExpansion projection = mean / max / min over the documented "
+    "intervals); two option values per option, other options fixed; KLExpansion_Full / CustomKL (no fun2par) only as "
+    "domain geometries, no adjoint into them",
+    "process history: the history of a cell is the stated interleaving of ONE decoy with the model under test inside the "
+    "cell; nothing is assumed about what earlier cells left in the worker process (both directions of each pair are "
+    "cells, so at least one of them disagrees with any leftover state; in a fresh process every decoy-first cell does); "
+    "the decoy itself is not judged in its cell (it is the model under test of the sibling cell); history cells use the "
+    "quick batteries, one partner (plain 1-D) and a covering subset of model kinds (the conversions are done by the "
+    "shared model layer); more than two geometries of a kind alive at once, threads and pickling are not exercised",
 ]
 
 EQ_RANGE = "=dom"
